@@ -697,6 +697,13 @@ class Fn:
         if b["k"] == "MethodCall" and b["method"] in ("split_at_mut", "split_at") and e["member"] in ("0", "1") and len(b["args"]) == 1:
             rng = {"k": "Range", "lo": None, "hi": b["args"][0], "inclusive": False} if e["member"] == "0" else {"k": "Range", "lo": b["args"][0], "hi": None, "inclusive": False}
             return s.expr({"k": "Reference", "mut": b["method"] == "split_at_mut", "e": {"k": "Index", "e": b["recv"], "index": rng}}, k, hint)
+        if s.env.get("self") == ("selfval",) and b["k"] == "Path" and b["path"] == ["self"] and "record" in s.cfg:
+            f = e["member"]
+            if f == "0" and s.cfg.get("newtype"):
+                return k("self_", ("selfty",))
+            if f not in s.cfg["record"]:
+                raise Unsupported("self." + f)
+            return k("(%s self_)" % s.cfg["record"][f], s.cfg.get("record_types", {}).get(f))
         if s.is_self(e):
             return k("self", ("selfalias",))
         if s.is_self(b):
@@ -1236,6 +1243,12 @@ class Fn:
         p = f["path"]
         nm = p[-1]
         al = e["args"]
+        ck = "::".join(p)
+        if ck in s.cfg.get("ctor_calls", {}):
+            txt, nargs = s.cfg["ctor_calls"][ck]
+            if nargs is None:        # newtype wrapper: AsyncFixedBuf(x) is x
+                return s.expr(al[0], k)
+            return s.args(al, lambda av: k(("%s %s" % (txt, " ".join(paren(a) for a, _ in av))).strip(), ("selfty",)))
         if p[-2:] == ["Poll", "Ready"]:
             return s.expr(al[0], K(lambda a, t: k("PReady %s" % paren(a), ("poll", t))))
         if len(p) == 1 and nm in ("Some", "Ok", "Err"):
